@@ -104,7 +104,8 @@ class HSS(Harness):
         self.optim_state = dict(search_count=sc0, uncertainty_handling_level=level, search_mesh_size=sms, mesh_size=self.mesh_size,
                                 lb_search=lb_search, ub_search=ub_search, tol_mesh=2.0 ** p.get("ktol", -19), lb=self.lower_bounds, ub=self.upper_bounds,
                                 scale=1.0, periodic_vars=np.zeros((1, D), bool), search_sufficient_improvement=np.float64(suff),
-                                search_factor=1, sd_level=0.1, iter=3, u_success=[], y_success=[], f_success=[], fval=self.fval, fsd=self.fsd)
+                                search_factor=1, sd_level=0.1, iter=3, u_success=[], y_success=[], f_success=[], fval=self.fval, fsd=self.fsd,
+                                max_fun_evals=int(opts["max_fun_evals"]) + (int(opts["noise_final_samples"]) if level > 0 else 0))
         Xlog = sym_array(eng, "X", (M, D)) if M else np.zeros((0, D))
         if not eng.concrete and M:
             for v in _raw(Xlog).ravel():
